@@ -79,6 +79,32 @@ def _n1(run: Run, w: World) -> None:
                         f"the internal name `{norm(arg, 50)}` given to {pat} is not a fresh next_name(<literal>) "
                         f"(depends on {sorted(sl.params | sl.free | (sl.calls - {'next_name'})) or 'a constant'}): two objects may get the same SymPy name and alias")
         run.sample({"site": f.qual, "constructor": pat, "names": [norm(c.args[idx], 40) for _, c in calls if len(c.args) > idx]})
+    # who may construct: every other call of a name-keyed SymPy base constructor in the package is held to the same rule
+    known = {(mn, pth.split(".")[-1]) for mn, pth, _, _ in N1_SITES}
+    pats = {"SymSymbol.__new__": 1, "IndexedBase.__new__": 1, "UndefinedFunction.__new__": 1, "SymQuantity.__new__": 1, "UndefinedVectorFunction.__new__": 1, "CoordSys3D": 0}
+    for m in run.src.mods.values():
+        if not m.name.startswith("symplyphysics.core") and not m.name.startswith("symplyphysics.docs"):
+            continue
+        for fn in [x for x in ast.walk(m.tree) if isinstance(x, (ast.FunctionDef, ast.AsyncFunctionDef))]:
+            if (m.name, fn.name) in known:
+                continue
+            for c in [x for x in ast.walk(fn) if isinstance(x, ast.Call) and dotted(x.func) in pats]:
+                if any(isinstance(g_, ast.FunctionDef) and g_ is not fn and any(y is c for y in ast.walk(g_)) for g_ in ast.walk(fn)):
+                    continue
+                idx = pats[dotted(c.func)]
+                # a positional class argument precedes the name for the __new__ forms: SymQuantity.__new__(cls, name, ...)
+                run.ob("N1", f"{m.name}:{fn.name}:{dotted(c.func)}")
+                arg = c.args[idx] if len(c.args) > idx else None
+                direct = isinstance(arg, ast.Call) and dotted(arg.func) == "next_name" and len(arg.args) == 1 and isinstance(arg.args[0], ast.Constant)
+                if not direct and isinstance(arg, ast.Name):
+                    assigns = [a for a in ast.walk(fn) if isinstance(a, ast.Assign) and any(isinstance(t, ast.Name) and t.id == arg.id for t in a.targets)]
+                    direct = len(assigns) == 1 and isinstance(assigns[0].value, ast.Call) and dotted(assigns[0].value.func) == "next_name" \
+                        and arg.id not in [p_.arg for p_ in fn.args.args + fn.args.kwonlyargs]
+                if not direct:
+                    run.violate("N1", f"{m.name}:{fn.name}:{dotted(c.func)}:{norm(arg, 40) if arg is not None else 'no-name'}", m, c,
+                                f"{fn.name} constructs a SymPy object through {dotted(c.func)} with the name `{norm(arg, 40) if arg is not None else '?'}`, which is not a fresh "
+                                f"next_name(<literal>): an object built here can carry the name of an existing one - it compares equal to it and, for quantities, "
+                                f"overwrites its entry in the unit system")
     # factory functions hand out a NEW object on every path: each returned value derives from a fresh next_name(...) call
     for modname, path in (("symplyphysics.core.coordinate_systems.coordinate_systems", "coordinates_transform"),
                           ("symplyphysics.core.coordinate_systems.coordinate_systems", "coordinates_rotate")):
